@@ -102,4 +102,23 @@ func OrderedMap.Clear
   modifies o.head, o.tail, o.size, o.dictionary, o.seq, o.n, o.idx
   ghost before unlock: o.n = 0
   ensures o != nil ==> o.n == 0 && unlocked(o.mutex)
+
+-- iteration: the consumer runs with the map's lock released (it may call back into the map, or into a set that is being
+-- read by another iteration: holding the read lock across it deadlocks with a queued writer or a second map); the lock is
+-- only taken to read the next link
+func OrderedMap.ForEach
+  requires unlocked(o.mutex)
+  callback consumer(k, v) (cont)
+    opt nolocks
+  modifies everything
+  loop 1 invariant o != nil && unlocked(o.mutex)
+  ensures o != nil ==> unlocked(o.mutex)
+
+func OrderedMap.ForEachReverse
+  requires unlocked(o.mutex)
+  callback consumer(k, v) (cont)
+    opt nolocks
+  modifies everything
+  loop 1 invariant o != nil && unlocked(o.mutex)
+  ensures o != nil ==> unlocked(o.mutex)
 @*/
